@@ -5,12 +5,12 @@ SPEC = {
     "units": [
         {"name": "scenarios", "pkg": O4, "kind": "rapid", "run": "^TestVerifC02Scenarios$",
          "quick": {"checks": 600, "shards": 8, "timeout": 300},
-         "thorough": {"checks": 2000, "shards": 16, "timeout": 3000}},
+         "thorough": {"checks": 20000, "shards": 16, "timeout": 3000}},
         {"name": "tamper-enum", "pkg": O4, "kind": "plain", "run": "^TestVerifC02TamperEnum$",
          "quick": {"shards": 2, "timeout": 300}, "thorough": {"shards": 8, "timeout": 1500}},
         {"name": "concurrent", "pkg": O4, "kind": "rapid", "run": "^TestVerifC02Concurrent$",
          "quick": {"checks": 20, "shards": 2, "timeout": 300},
-         "thorough": {"checks": 60, "shards": 4, "timeout": 1500, "race": True}},
+         "thorough": {"checks": 120, "shards": 8, "timeout": 1500, "race": True}},
     ],
 }
 
